@@ -3,7 +3,8 @@
     [1; fn; cur; kinds...]        -> cursor after recovery loop fn (0..3)     (or [-1])
     [2; k; cur; kinds...]         -> cursor after skipTo(k)
     [3; k; cur; kinds...]         -> cursor after match(k)
-    [4; ref; cur; kinds...]       -> cursor after Backtracker(ref)::backtrack() *)
+    [4; ref; cur; kinds...]       -> cursor after Backtracker(ref)::backtrack()
+    [5; max; n]                   -> depth after n nested DepthControl guards (or [-1]: the limit error) *)
 From Coq Require Import ZArith List Bool NArith.
 From PV Require Import C01Model.
 From PV.gen Require Import Gen_Recover.
@@ -24,5 +25,8 @@ Definition run (req : list Z) : list Z :=
   | 2 :: k :: cur :: ks => opt (skip_to EOF_kind (Z.to_N k) (map Z.to_N ks) (Z.to_nat cur))
   | 3 :: k :: cur :: ks => opt (match_tok EOF_kind (Z.to_N k) (map Z.to_N ks) (Z.to_nat cur))
   | 4 :: ref :: cur :: ks => [Z.of_nat (backtrack (map Z.to_N ks) (Z.to_nat ref) (Z.to_nat cur))]
+  | 5 :: mx :: n :: _ =>
+      (* n nested DepthControl guards entered one inside the other, then left: the depth at the end, or -1 for the declared runtime_error *)
+      opt (depth_run (Z.to_nat mx) 0 (repeat Enter (Z.to_nat n) ++ repeat Leave (Z.to_nat n)))
   | _ => []
   end.
